@@ -1,7 +1,9 @@
 import SppModel.Generated.ReaderArith
+import SppModel.Frozen.ReaderArith
 import SppModel.Lemmas.KernelLink
 import SppModel.Lemmas.Loop
 import SppModel.Generated.LoopKernels
+import SppModel.Frozen.LoopKernels
 /-!
 # Kernel specification — `kernels.dedisperse` as translated computes its definition (C06, C09)
 
@@ -12,10 +14,10 @@ of an index expression, a loop bound or an operand in the source changes the gen
 the proof.
 -/
 namespace SppModel.KernelSpecs
-open SppModel SppModel.Loop SppModel.Generated.LoopKernels SppModel.KernelSpecs.LinkA
+open SppModel SppModel.Loop SppModel.Frozen.LoopKernels SppModel.KernelSpecs.LinkA
 
 /-- the kernel was recognised by the translator on this run -/
-theorem dedisperse_translated : ∀ f ∈ translationFailures, f.1 ∉ ["kernels_py_loops", "loop_dedisperse"] := by decide
+theorem dedisperse_translated : ∀ f ∈ Generated.LoopKernels.translationFailures, f.1 ∉ ["kernels_py_loops", "loop_dedisperse"] := by decide
 
 private theorem dedisperse_aux (inp out : Nat → Rat) (dl : Nat → Nat) (C m idx j : Nat) :
     forRange m out (fun isamp a => forRange C a (fun ichan a =>
@@ -51,10 +53,10 @@ theorem dedisperse_spec (inp out : Nat → Rat) (dl : Nat → Nat) (md C n idx j
 theorem dedisperse_block_link (flat : List Int) (C : Nat) (delays : List Nat) (md G : Nat) (b : Plan.Blk)
     (out : Nat → Rat) (t : Nat) (ht : t < b.len - md) :
     dedisperse (blockData flat C b) out (fun c => delays.getD c 0) md C b.len
-        (Generated.ReaderArith.dedisperse_index G b.ii md) (b.ii * (G - md) + t)
+        (Frozen.ReaderArith.dedisperse_index G b.ii md) (b.ii * (G - md) + t)
       = out (b.ii * (G - md) + t) + ((Reduce.dedispSum flat C delays (b.off + t) : Int) : Rat) := by
   rw [dedisperse_spec]
-  unfold Generated.ReaderArith.dedisperse_index
+  unfold Frozen.ReaderArith.dedisperse_index
   have h : b.ii * (G - md) ≤ b.ii * (G - md) + t ∧ b.ii * (G - md) + t < b.ii * (G - md) + (b.len - md) := by
     omega
   rw [if_pos h, Nat.add_sub_cancel_left]
@@ -67,7 +69,7 @@ theorem dedisperse_block_link (flat : List Int) (C : Nat) (delays : List Nat) (m
 /-- the executable twin run by the correspondence check (`K` requests of the driver) is the same function:
     it only tabulates the loop state after each iteration (`Loop.forRangeM_eq`) -/
 theorem dedisperse_exec_eq (memo : Nat) (inp out : Nat → Rat) (dl : Nat → Nat) (md C n idx : Nat) :
-    dedisperse_exec memo inp out dl md C n idx = dedisperse inp out dl md C n idx := by
-  simp only [dedisperse_exec, dedisperse, Loop.forRangeM_eq]
+    Generated.LoopKernels.dedisperse_exec memo inp out dl md C n idx = Generated.LoopKernels.dedisperse inp out dl md C n idx := by
+  simp only [Generated.LoopKernels.dedisperse_exec, Generated.LoopKernels.dedisperse, Loop.forRangeM_eq]
 
 end SppModel.KernelSpecs
